@@ -20,16 +20,15 @@ RULE = ('for every generator configuration of a catalogue (all carrier classes, 
         'square_wave called positionally and by keyword, on- and off-grid, samples="auto", NumPy-typed offsets, offsets far past the '
         'end, fragments at ==/-1/+1 of every segment boundary, and called twice with the caller writing into the first (memoised) '
         'result; tone / sam_tone fragments and the seconds-based `duration` variant, the noise functions and ramped_tone against '
-        'their factory twins. The model prints a symbolic recipe per sample; the harness evaluates it with one-shot elementary '
+        'their factory twins; WavSequenceFactory (float / int rate, resampled files, both normalisations). The model prints a symbolic recipe per sample; the harness evaluates it with one-shot elementary '
         'functions and compares bit-exactly (FIR noise 1e-12). Non-trivial: at least two chunks and a non-carrier node or a noise/filter carrier.')
 TRUSTED = ['harness/stimcore.py (factory builder, recipe evaluator using one-shot carrier / scipy window / one-shot filter, decoder)',
            'per-index carriers (cos of an index), RandomState streams and scipy lfilter are oracles: their own chunk-invariance is '
            'what the oracle() tests directly (chunked == one-shot), not something the model proves']
 ASSUMPTIONS = ['times are passed as k/fs; the effective sample counts are computed with the code\'s own int(round(t*fs))',
                'square-wave envelope periods: float arithmetic of fs/fm is modelled as exact rational arithmetic of that double',
-               'WavSequenceFactory is not modelled and cannot produce a sample on the unchanged tree (fs is passed as the queue seed): '
-               'its cases are judged by the oracle only and are vacuous while both the chunked and the single request raise TypeError',
-               'sam_envelope(equalize=False) divides by zero for every fragment: oracle only (raises for the fragment iff for the whole)',
+               'WavSequenceFactory is a stream carrier (its queue logic is C02\'s subject): the harness sorts its wav files by name '
+               'after construction because the class takes them in directory-listing order',
                'noise factories with seed=None are not reproducible by design and are outside the property']
 FS = [1000.0, 25000.0, 44100.0, 48828.125, 195312.5]
 
@@ -153,10 +152,21 @@ def cases(tier, rng):
             durs = [7, 7.6] if 'dur' not in cfg else [cfg['dur']]
             for dur in durs:
                 yield {'k': 'fn', 'fs': fs, 'cfg': cfg, 'mode': 'dur', 'dur': dur}
-    # WavSequenceFactory (a queue of wav files behind the generator interface): judged by the oracle only
-    for fs in [1000.0, 1000, 44100.0]:
-        for chunks in [[3, 4], [10, 1, 20], [40]]:
-            yield {'k': 'wavseq', 'fs': fs, 'chunks': chunks}
+    # WavSequenceFactory (a blocked-random queue of wav files behind the generator interface; trials = inf, so it never
+    # runs dry): an ordinary stream carrier, float and int sampling rates, with and without resampling of the files
+    for fs in [1000.0, 1000, 44100.0, 48828.125]:
+        for cfg in [{'t': 'wavseq'}, {'t': 'wavseq', 'norm': 'rms'}]:
+            unit = max(int(round(fs / 1000)), 1)        # samples per sample of the 1000 Hz files
+            for chunks in [[3, 4], [10, 1, 20], [7, 11, 5, 7], [6, 1, 1, 10, 1, 1, 4, 1, 1], [23, 23], [40]]:
+                ops = [['next', n * unit if unit < 10 else n] for n in chunks]
+                yield {'k': 'gen', 'fs': fs, 'cfg': cfg, 'ops': ops}
+                yield {'k': 'gen', 'fs': fs, 'cfg': cfg, 'ops': ops[:2] + [['query'], ['reset']] + ops}
+            for _ in range(3 if quick else 20):
+                yield {'k': 'gen', 'fs': fs, 'cfg': cfg, 'ops': sc.kinds_history(cfg, fs, rng)}
+                ops = []
+                for _ in range(rng.randint(2, 6)):
+                    ops.append(['reset'] if rng.random() < 0.12 else ['next', rng.choice([1, 2, 7, rng.randint(0, 30)])])
+                yield {'k': 'gen', 'fs': fs, 'cfg': cfg, 'ops': ops}
 
 
 def _ival(v, case):
@@ -267,27 +277,6 @@ def _fn_ops(case):
     return [['next', sc.eff(case['dur'], case['fs'])]]
 
 
-def _wavseq_dir():
-    import os
-    from scipy.io import wavfile
-    d = os.path.join(os.path.dirname(os.path.dirname(os.path.abspath(__file__))), 'work', 'wavseq')
-    if not os.path.isdir(d):
-        os.makedirs(d, exist_ok=True)
-        for i, n in enumerate([7, 11, 5]):
-            wavfile.write(os.path.join(d, f's{i}.wav'), 1000, (np.arange(n) * 100 + 1000 * i + 50).astype(np.int16))
-    return d
-
-
-def _wavseq(fs, chunks):
-    from psiaudio import stim
-    try:
-        f = stim.WavSequenceFactory(fs, _wavseq_dir())
-        return ['ok', [[float(v) for v in f.next(n)] for n in chunks]]
-    except TypeError as e:
-        # on the unchanged tree the class cannot produce a single sample (reported; see oracle)
-        return ['raise', 'TypeError']
-
-
 def impl(case):
     fs = case['fs']
     k = case['k']
@@ -299,10 +288,7 @@ def impl(case):
         except ValueError:
             return ['raise']
     if k == 'samenv':
-        try:
-            return _twice(case, lambda: _sam_call(case, case['o'], case['n']))
-        except ZeroDivisionError:
-            return ['raise']
+        return _twice(case, lambda: _sam_call(case, case['o'], case['n']))
     if k == 'sqwave':
         return _twice(case, lambda: _sq_call(case, case['o'], case['n']))
     if k == 'fn':
@@ -310,8 +296,6 @@ def impl(case):
             return _fn_call(case)
         except ValueError:
             return [['raise', 'ValueError']]
-    if k == 'wavseq':
-        return _wavseq(fs, case['chunks'])
     raise KeyError(k)
 
 
@@ -357,8 +341,6 @@ def expr(case, res):
         duty = int(round(case['duty'] * P))
         a = f"{sc.qlit(Fraction(P))} {zlit(duty)} {zlit(case['o'])} {zlit(case['n'])}"
         return f"run_sqenv {a} ++ frag_ok_sqenv {a}"
-    if k == 'wavseq':
-        return f"spec_ok_Z (GCar 1) {zlist(case['chunks'])}"
 
 
 def _frag_eval(case, factors):
@@ -372,6 +354,8 @@ def _frag_eval(case, factors):
         c = {'depth': case['depth'], 'fm': case['fm'], 'delay': case['delay']}
         if case.get('mode') == 'direct':
             c.update(eq_phase=case['eq_phase'], eq_power=case['eq_power'])
+        elif case.get('mode') == 'noeq':
+            c.update(eq_phase=0, eq_power=1)        # sam_envelope(equalize=False): zero starting phase, unit scale
         info = {'kind': 'sam', 'cfg': c}
     else:
         P = fs / case['fm']
@@ -394,12 +378,6 @@ def agree(case, res, mo):
             dec = sc.decode(mo)
             return None if dec and dec[0][0] == 'raise' else 'the function raised ValueError, the model of its factory twin does not'
         return sc.compare(case['cfg'], case['fs'], reg, ops, res, mo)
-    if k == 'wavseq':
-        return None         # not modelled: oracle only
-    if k == 'samenv' and case.get('mode') == 'noeq':
-        # sam_envelope(equalize=False) divides by its eq_power of 0 for every (offset, samples): no envelope to model;
-        # the oracle checks that this does not depend on the fragment
-        return None
     if k == 'envelope':
         if mo[0] == 2:
             return None if res[0] == 'raise' else 'model raises ValueError, implementation returned an envelope'
@@ -422,8 +400,6 @@ def agree(case, res, mo):
 
 def nontrivial(case, res):
     k = case['k']
-    if k == 'wavseq':
-        return res[0] == 'ok' and len(case['chunks']) >= 2
     if k == 'fn':
         return case['mode'] == 'dur' or (case['n'] > 0 and case['o'] > 0)
     if k != 'gen':
@@ -486,22 +462,7 @@ def oracle(case, res):
                 return None
             return 'the function raised ValueError for parameters its factory twin accepts'
         return _gen_oracle(case['cfg'], fs, _fn_ops(case), res)
-    if k == 'wavseq':
-        one = _wavseq(fs, [sum(case['chunks'])])
-        if res[0] == 'raise' or one[0] == 'raise':
-            # unchanged tree: WavSequenceFactory(fs, path) passes fs as the queue's *seed* (TypeError for a float rate;
-            # for an int rate the queue has no sampling rate and the first draw raises TypeError).  No sample stream
-            # exists, chunked or not, so chunk invariance is vacuous; reported in DESIGN/the audit report.
-            return None if res[0] == one[0] else 'chunked draws and a single request differ in raising TypeError'
-        got = [v for c in res[1] for v in c]
-        return None if got == one[1][0] else 'WavSequenceFactory: chunked stream differs from a single request'
     if res[0] == 'raise':
-        if k == 'samenv':
-            try:
-                _sam_call(case, 0, case['o'] + case['n'])
-            except ZeroDivisionError:
-                return None
-            return 'the fragment raised ZeroDivisionError, the full envelope did not'
         return None
     if len(res) > 2 and res[2] != res[1]:
         return f'{k}: the same call returned different values after the caller wrote into the first result'
